@@ -492,6 +492,17 @@ func buildInit(p *initPlan) (*mp4.InitSegment, []*expTrack, error) {
 			e.entryType = t.desc[:4]
 			e.includePS = t.desc != "hev1nops"
 			e.w, e.h = e.ps.w, e.ps.h
+			if e.entryType == "hev1" && e.includePS {
+				// hev1 may carry only part of the parameter sets in the sample entry (the rest in band)
+				switch r.Intn(6) {
+				case 0:
+					e.ps.vps = nil
+				case 1:
+					e.ps.pps = nil
+				case 2:
+					e.ps.vps, e.ps.pps = nil, nil
+				}
+			}
 			return trak.SetHEVCDescriptor(e.entryType, e.ps.vps, e.ps.sps, e.ps.pps, nil, e.includePS)
 		case "aac":
 			e.entryType = "mp4a"
